@@ -10,4 +10,6 @@ cp -f /repo/Cargo.lock harness/Cargo.lock
 ( cd harness && cargo build --offline -q --bins ) || echo "setup: harness build incomplete"
 cp -f /repo/Cargo.lock harness-app/Cargo.lock
 ( cd harness-app && cargo build --offline -q --bins ) || echo "setup: harness-app build incomplete"
+cp -f /repo/Cargo.lock harness-net/Cargo.lock
+( cd harness-net && cargo build --offline -q --bins ) || echo "setup: harness-net build incomplete"
 echo "setup done"
